@@ -138,7 +138,7 @@ func verifRefRequest(s []byte) (SocksHeader, bool) {
 
 // H_c15_request: the request is parsed per RFC 1928 for every stream and every chunking.
 func H_c15_request() {
-	L := nondet_choice("L", verifC15RequestMaxL+1)
+	L := nondet_choice("L", verif_bound("socks-request-maxL", verifC15RequestMaxL, 22)+1)
 	stream := nondet_bytes("stream", L)
 	c := &VerifStreamConn{Phases: [][]byte{stream}}
 	h, err := ReadSocksHeader(c)
